@@ -152,6 +152,15 @@ CLAIMED = {
             "delivered <=> conformant for every byte content of the symbolic field at every "
             "position, in every block position and inbound configuration; delivered list == "
             "decoded block (cookies joined last, text when header_encoding is set).", "7/C15"),
+    'C14': ("symbolic execution of the real outbound pipeline (send_headers / push_stream -> "
+            "normalize_outbound_headers -> validate_outbound_headers -> encoder) on header lists "
+            "containing a field whose name and value are strings of solver variables; the list "
+            "shown to a recording encoder is compared with an independent normalisation + "
+            "RFC 7540 8.1.2 predicate",
+            "emitted <=> (normalised input conformant); emitted block == normalised input with "
+            "never-indexed marking; lower-case / trimmed / no connection-specific fields checked "
+            "directly on what was emitted; each normalise/validate combination only for the "
+            "rules it promises.", "7/C14"),
 }
 
 NOT_YET = {}
